@@ -1931,11 +1931,14 @@ func (pid *PID) runTurn(w *worker) {
 		return
 	}
 
-	now := time.Now()
+	// The clock is read for every message rather than once per turn: the reading
+	// becomes the actor's activity stamp, and a turn of slow handlers stamped with
+	// its start time looks idle to the passivation manager, which then stops the
+	// actor in the middle of the turn and drops the rest of its mailbox.
 	budget := w.dispatcher.throughput
 	for range budget {
 		if sysMsg := pid.systemMailbox.Dequeue(); sysMsg != nil {
-			pid.dispatchOne(sysMsg, now)
+			pid.dispatchOne(sysMsg, time.Now())
 			continue
 		}
 		received := pid.mailbox.Dequeue()
@@ -1945,7 +1948,7 @@ func (pid *PID) runTurn(w *worker) {
 			}
 			continue
 		}
-		pid.dispatchOne(received, now)
+		pid.dispatchOne(received, time.Now())
 	}
 	pid.schedState.YieldToScheduled()
 	w.reschedule(pid)
